@@ -55,6 +55,10 @@ def want_expiry(cls, y, m):
     return last_weekday(y, m)
 
 
+def pydt(x):
+    return x.to_pydatetime() if hasattr(x, "to_pydatetime") else x
+
+
 def as_date(x):
     return x.date() if hasattr(x, "date") else x
 
@@ -62,6 +66,11 @@ def as_date(x):
 def check_contract(ctx, cls, y, m):
     c = cls(y, m)
     exp, ltd = c.expiry, c.last_trading_date
+    AbstractContract.now = ctx.rng.choice([datetime.min, datetime(2150, 1, 1)])
+    ev1 = c.make_events()
+    AbstractContract.now = datetime.min
+    ctx.check("C19:contract-event", len(ev1) == 1 and ev1[0].time == exp and ev1[0].contract is c, cls=cls.__name__, year=y, month=m,
+              events=len(ev1))
     want = want_expiry(cls, y, m)
     ok = as_date(exp) == want and (cls is not VX or want.weekday() == 2)
     ok = ok and exp.hour == 0 and exp.minute == 0
@@ -86,7 +95,10 @@ def check_chain(ctx, cls, start, end, month=0):
     span_years = (ex[-1].year - ex[0].year) if cs else 0
     if span_years < 100:
         ctx.check("C19:chain-unique-symbols", len(set(syms)) == len(syms), cls=cls.__name__, start=start, end=end)
+    # the events do not depend on the process-wide clock (left wherever an earlier episode put it)
+    AbstractContract.now = ctx.rng.choice([datetime.min, datetime(2150, 1, 1), pydt(ex[len(ex) // 2])])
     evs = ch.make_events()
+    AbstractContract.now = datetime.min
     ctx.check("C19:chain-events", len(evs) == len(cs) and all(
         isinstance(e, EventContractDiscontinued) and e.time == c.expiry and e.contract is c for e, c in zip(evs, cs)),
         cls=cls.__name__, start=start, end=end, events=len(evs), contracts=len(cs))
